@@ -447,6 +447,41 @@ theorem tokensSpanP_sat {site : String} {l : List Tok} (hne : l ≠ []) {Q : Spa
     rfl
   unfold Sat; rw [e1]; exact h
 
+/-! versions of the read-only primitives phrased with the invariant -/
+theorem peekK_sat (h : G ts e s) {Q : Option TK → BP α → Prop} (hq : Q ((ts[s.cur]?).map (·.kind)) s) :
+    Sat peekK s Q := by
+  apply Sat.peekK; rw [h.toks]; exact hq
+
+theorem atK_sat (h : G ts e s) {k : TK} {Q : Bool → BP α → Prop}
+    (hq : Q ((ts[s.cur]?).map (·.kind) == some k) s) : Sat (atK k) s Q := by
+  apply Sat.atK; rw [h.toks]; exact hq
+
+theorem currentOffset_sat (h : G ts e s) {Q : Nat → BP α → Prop} (hq : Q (offAt ts s.cur) s) :
+    Sat currentOffset s Q := by
+  apply Sat.currentOffset; rw [h.toks]; exact hq
+
+theorem hasExt_sat (h : G ts e s) {flag : Nat} {Q : Bool → BP α → Prop} (hq : Q (e.has flag) s) :
+    Sat (hasExt flag) s Q := by
+  apply Sat.hasExt; rw [h.ext]; exact hq
+
+theorem restToks_sat (h : G ts e s) {Q : List Tok → BP α → Prop} (hq : Q (ts.drop s.cur) s) :
+    Sat restToks s Q := by
+  apply Sat.restToks; rw [h.toks]; exact hq
+
+theorem allToks_sat (h : G ts e s) {Q : List Tok → BP α → Prop} (hq : Q ts s) : Sat allToks s Q := by
+  apply Sat.allToks; rw [h.toks]; exact hq
+
+theorem atK_true {c : Nat} {k : TK} (h : ((ts[c]?).map (·.kind) == some k) = true) :
+    ∃ t, ts[c]? = some t ∧ t.kind = k := by
+  cases ht : ts[c]? with
+  | none => rw [ht] at h; simp at h
+  | some t => rw [ht] at h; exact ⟨t, rfl, by simpa using h⟩
+
+theorem getElem?_lt {c : Nat} {t : Tok} (h : ts[c]? = some t) : c < ts.length := by
+  rcases Nat.lt_or_ge c ts.length with h' | h'
+  · exact h'
+  · rw [List.getElem?_eq_none h'] at h; simp at h
+
 end prims
 
 end Cook
